@@ -33,7 +33,7 @@ type vf37TokKey struct{}
 type vf37HookTok struct{ id int }
 
 type vf37Hook struct {
-	mode         string // normal | pstart | pend
+	mode         string // normal | pstart | pend | cancel
 	k            int
 	nStart, nEnd int
 }
@@ -46,6 +46,13 @@ func (h *vf37Hook) OnDispatchStart(ctx context.Context, info DispatchInfo) (cont
 		panic("verif: hook start panic")
 	}
 	vf37Log = append(vf37Log, vf37Ev{Unit: vf37CurUnit, What: "start", Tok: n, Info: info})
+	if h.mode == "cancel" {
+		// like a tracing/deadline hook: the dispatch runs under a derived,
+		// cancellable context; user code may cancel it mid-call.
+		cctx, cancel := context.WithCancel(ctx)
+		vf37CancelFn = cancel
+		return context.WithValue(cctx, vf37TokKey{}, n), &vf37HookTok{id: n}
+	}
 	return context.WithValue(ctx, vf37TokKey{}, n), &vf37HookTok{id: n}
 }
 
@@ -278,4 +285,32 @@ func TestVerif_C37(t *testing.T) {
 		{Name: "u-ok", Class: "ok", Method: "u_ok", X: 5, Dispatched: true},
 	}
 	venum.Explore(t, venum.Cfg{Name: "token-pack-failure", Shardable: true}, body(unreg, 2))
+
+	// Corner: the hook hands the dispatch a derived cancellable context and
+	// user code cancels it between two Produce iterations of one turn. The
+	// response legitimately differs from the no-hook run (the stream stops), so
+	// only the hook accounting rules are evaluated: one end per start, and
+	// end.err != nil iff the response reports an error.
+	cancelKinds := []vf37Kind{
+		{Name: "prod-ctxcancel", Class: "ctx-cancel", Method: "prod", Stream: 1, X: 15, In: []string{"t", "t", "t", "t"}, Dispatched: true},
+		{Name: "prod-2", Class: "ok", Method: "prod", Stream: 1, X: 1, In: []string{"t", "t", "t"}, Dispatched: true},
+		{Name: "u-ok", Class: "ok", Method: "u_ok", X: 5, Dispatched: true},
+	}
+	venum.Explore(t, venum.Cfg{Name: "hook-cancels-context", Shardable: true}, func(x *venum.X) {
+		hist := vf37ChooseHistory(x, cancelKinds, 2)
+		http := x.Bool("http")
+		tr := "pipe"
+		if http {
+			tr = "http"
+		}
+		limit := []int{-1, 1, 2, 3}[x.Choose(4, "producer-limit")]
+		run := vf37RunHistory(hist, http, &vf37Env{Hook: &vf37Hook{mode: "cancel"}, ProducerLimit: limit})
+		oc := vf37CheckHooks(x, tr, run)
+		for _, u := range run.Units {
+			if u.Panic != nil {
+				x.Failf("C37:"+tr+":cancel-hook:panic-escaped:"+u.Role, "history %s unit %d: %v", vf37HistName(hist), u.Idx, u.Panic)
+			}
+		}
+		x.Outcome("%s limit=%d | %s | %s", tr, limit, oc, run.UserCode)
+	})
 }
